@@ -1735,6 +1735,355 @@ Section Conf.
     intros H. refine (ev_ref ucls G n0 (ss "stamp") _ NonAtomic s PFail eq_refl _).
     apply ev_seq_fail1, ev_lit1_fail, H.
   Qed.
+
+  (* ---- what a well-formed stamp looks like ---- *)
+  Lemma take_app_exact {A} (a b : list A) : take (length (a ++ b) - length b) (a ++ b) = a.
+  Proof.
+    rewrite app_length. replace (length a + length b - length b)%nat with (length a) by lia.
+    induction a as [|x a IH]; cbn [length take app]; [destruct b; reflexivity | now rewrite IH].
+  Qed.
+
+  Lemma body_char_inner c : stamp_body_char c = true -> stamp_inner c = true.
+  Proof.
+    unfold stamp_body_char. intros H. apply orb_true_iff in H as [H|H]; [apply orb_true_iff in H as [H|H]|].
+    - apply digit_cases in H. cbn [In] in H.
+      repeat (destruct H as [<-|H]; [unfold stamp_inner; ascii|]). destruct H.
+    - apply N.eqb_eq in H. subst c. unfold stamp_inner. ascii.
+    - apply N.eqb_eq in H. subst c. unfold stamp_inner. ascii.
+  Qed.
+
+  Lemma stamp_shape st :
+    stamp_ok X0 st = true ->
+    st = [] \/ exists b bs, st = 58 :: (b :: bs) ++ [58] /\ stamp_inner b = true /\ forallb stamp_inner bs = true.
+  Proof.
+    unfold stamp_ok. intros H. apply orb_true_iff in H as [H|H]; [apply orb_true_iff in H as [H|H]|].
+    - left. now apply str_eqb_eq.
+    - right. apply str_mem_In in H. vm_compute in H. destruct H as [<-|[<-|[<-|[]]]].
+      + exists 47, []. split; [reflexivity|]. split; [unfold stamp_inner; ascii | reflexivity].
+      + exists 124, []. split; [reflexivity|]. split; [unfold stamp_inner; ascii | reflexivity].
+      + exists 92, []. split; [reflexivity|]. split; [unfold stamp_inner; ascii | reflexivity].
+    - right. unfold stamp_fixed_ok in H.
+      change (fst (lx_fixed X0)) with [58; 33] in H. change (snd (lx_fixed X0)) with [58] in H.
+      apply andb_true_iff in H as [H1 H]. apply andb_true_iff in H as [H2 H3].
+      apply starts_spec in H1 as [r ->]. cbn [length drop app] in H2, H3.
+      apply ends_spec in H2 as [body ->]. rewrite take_app_exact in H3.
+      exists 33, body. split; [reflexivity|]. split; [unfold stamp_inner; ascii|].
+      apply forallb_forall. intros c Hc. rewrite forallb_forall in H3. apply body_char_inner, H3, Hc.
+  Qed.
+
+  Lemma stamp_inner_facts c : stamp_inner c = true -> isws c = false /\ (36 =? c) = false.
+  Proof.
+    unfold stamp_inner. intros H. apply andb_true_iff in H as [H H36]. apply andb_true_iff in H as [_ Hw].
+    now apply negb_true_iff in Hw, H36.
+  Qed.
+
+  Lemma stamp_chars b bs :
+    stamp_inner b = true -> forallb stamp_inner bs = true ->
+    strip_ws ucls (58 :: (b :: bs) ++ [58]) = 58 :: (b :: bs) ++ [58] /\
+    memb 36 (58 :: (b :: bs) ++ [58]) = false.
+  Proof.
+    intros Hb Hbs.
+    assert (Hall : forallb stamp_inner (b :: bs) = true) by (cbn [forallb]; now rewrite Hb, Hbs).
+    assert (H : forall l, forallb stamp_inner l = true ->
+                          strip_ws ucls (l ++ [58]) = l ++ [58] /\ memb 36 (l ++ [58]) = false).
+    { induction l as [|c l IH]; cbn [app forallb].
+      - intros _. split; [apply strip_ws_nows; ascii | reflexivity].
+      - intros Hl. apply andb_true_iff in Hl as [Hc Hl]. destruct (stamp_inner_facts c Hc) as [Hw H36].
+        destruct (IH Hl) as [H1 H2]. rewrite (strip_ws_nows c _ Hw), H1. cbn [memb]. now rewrite H36, H2. }
+    destruct (H _ Hall) as [H1 H2]. split.
+    - rewrite (strip_ws_nows 58) by ascii. now rewrite H1.
+    - cbn [memb]. now rewrite H2.
+  Qed.
+
+  (* ---- punctuation = { PUNCTUATION | SYMBOL } ---- *)
+  Definition punct_okb (p : str) : bool :=
+    match p with [pc] => closer pc && punct_symb pc && negb (36 =? pc) | _ => false end.
+  Lemma puncts_ok p : str_mem p (lx_punctuations X0) = true -> punct_okb p = true.
+  Proof.
+    intros H. apply str_mem_In in H. vm_compute in H.
+    repeat (destruct H as [<-|H]; [unfold punct_okb, closer; ascii|]). destruct H.
+  Qed.
+
+  Lemma ev_punctuation pc R :
+    punct_symb pc = true ->
+    E (PRef (ss "punctuation")) NonAtomic (pc :: R) (POk R [Node (ss "punctuation") [pc] []]).
+  Proof.
+    intros Hp.
+    assert (Hb : E (PChoice (PClass UPunctuation) (PClass USymbol)) NonAtomic (pc :: R) (POk R [])).
+    { pose proof (ev_class ucls G n0 UPunctuation NonAtomic (pc :: R)) as H1.
+      pose proof (ev_class ucls G n0 USymbol NonAtomic (pc :: R)) as H2. cbn beta iota in H1, H2.
+      unfold Readme.punct_symb in Hp. destruct (ucls UPunctuation pc); [now apply ev_choice_l|].
+      cbn [orb] in Hp. rewrite Hp in H2. now apply ev_choice_r. }
+    pose proof (ev_ref ucls G n0 (ss "punctuation") _ NonAtomic (pc :: R) _ eq_refl Hb) as H.
+    cbn [pr_mod rule emits] in H. now rewrite (consumed_app [pc] R : consumed (pc :: R) R = [pc]) in H.
+  Qed.
+
+  (* ---- stamp? ~ truth? at the end of the input ---- *)
+  Definition stamp_part (st : str) : str := match st with [] => [] | _ => 32 :: st end.
+  Definition truth_part (tr : list str) : str := match tr with [] => [] | n :: ns => 32 :: truth_text n ns end.
+  Definition tail_kids (st : str) (tr : list str) : list tree :=
+    match st with [] => [] | _ => [Node (ss "stamp") st []] end ++
+    match tr with [] => [] | n :: ns => [Node (ss "truth") (truth_text n ns) (map tbt_node tr)] end.
+
+  Lemma ev_opt_truth tr :
+    forallb num_ok tr = true ->
+    E (POpt (PRef (ss "truth"))) NonAtomic (dropws (truth_part tr))
+      (POk [] (match tr with [] => [] | n :: ns => [Node (ss "truth") (truth_text n ns) (map tbt_node tr)] end)).
+  Proof.
+    intros Htr. destruct tr as [|n ns]; cbn [truth_part].
+    - apply ev_opt_none, ev_truth_fail. reflexivity.
+    - cbn [forallb] in Htr. apply andb_true_iff in Htr as [Hn Hns].
+      rewrite (dropws_ws 32) by ascii. unfold truth_text at 1. rewrite dropws_nows by ascii.
+      pose proof (ev_truth n ns [] Hn Hns) as Ht. rewrite app_nil_r in Ht. apply ev_opt_some. exact Ht.
+  Qed.
+
+  Lemma ev_sentence_tail st tr :
+    stamp_ok X0 st = true -> forallb num_ok tr = true ->
+    E (PSeq (POpt (PRef (ss "stamp"))) (POpt (PRef (ss "truth")))) NonAtomic
+      (dropws (stamp_part st ++ truth_part tr)) (POk [] (tail_kids st tr)).
+  Proof.
+    intros Hst Htr. pose proof (ev_opt_truth tr Htr) as Ht.
+    destruct (stamp_shape st Hst) as [->|[b [bs [-> [Hb Hbs]]]]].
+    - (* no stamp: the stamp rule fails on `%` or at the end of the input *)
+      cbn [stamp_part app tail_kids].
+      assert (Hs : E (POpt (PRef (ss "stamp"))) NonAtomic (dropws (truth_part tr)) (POk (dropws (truth_part tr)) [])).
+      { apply ev_opt_none, ev_stamp_fail. destruct tr as [|n ns]; [reflexivity|]. cbn [truth_part].
+        rewrite (dropws_ws 32) by ascii. unfold truth_text. rewrite dropws_nows by ascii. reflexivity. }
+      eapply ev_kids.
+      + eapply ev_seq_ok; [exact Hs | | exact Ht].
+        pose proof (ev_skip_na (dropws (truth_part tr))) as Hk. rewrite dropws_idem in Hk. exact Hk.
+      + reflexivity.
+    - set (st := 58 :: (b :: bs) ++ [58]) in *.
+      change (stamp_part st) with (32 :: st). cbn [app]. rewrite (dropws_ws 32) by ascii.
+      assert (Hd : dropws (st ++ truth_part tr) = st ++ truth_part tr) by (unfold st; cbn [app]; apply dropws_nows; ascii).
+      rewrite Hd.
+      eapply ev_kids.
+      + eapply ev_seq_ok; [apply ev_opt_some; exact (ev_stamp b bs (truth_part tr) Hb Hbs) | apply ev_skip_na | exact Ht].
+      + reflexivity.
+  Qed.
+
+  (* ---- the printed sentence ---- *)
+  Lemma join_with_nums n ns : join_with [59] (n :: ns) = nums_text n ns.
+  Proof.
+    revert n. induction ns as [|m ns IH]; intros n; unfold nums_text.
+    - cbn [join_with map concat]. now rewrite app_nil_r.
+    - change (join_with [59] (n :: m :: ns)) with (n ++ [59] ++ join_with [59] (m :: ns)).
+      rewrite IH. unfold nums_text. cbn [map concat app]. reflexivity.
+  Qed.
+
+  Definition sent_tail (s : lsentence) : str :=
+    ls_punct s ++ stamp_part (ls_stamp s) ++ truth_part (ls_truth s).
+
+  Lemma lfmt_sentence_eq s : lfmt_sentence SL s = F (ls_term s) ++ sent_tail s.
+  Proof.
+    unfold lfmt_sentence, sent_tail, join_lest. cbn [map concat ll_sp_items SL]. f_equal. f_equal.
+    destruct (ls_stamp s) as [|c st]; destruct (ls_truth s) as [|n ns];
+      cbn [stamp_part truth_part lfmt_truth app ll_tb0 ll_tb1 ll_tsep SL]; rewrite ?join_with_nums, ?app_nil_r;
+      reflexivity.
+  Qed.
+
+  Lemma sent_tail_no36 s :
+    str_mem (ls_punct s) (lx_punctuations X0) = true -> stamp_ok X0 (ls_stamp s) = true ->
+    forallb num_ok (ls_truth s) = true -> memb 36 (sent_tail s) = false.
+  Proof.
+    intros Hp Hst Htr. unfold sent_tail. rewrite !memb_app.
+    assert (H1 : memb 36 (ls_punct s) = false).
+    { apply puncts_ok in Hp. destruct (ls_punct s) as [|pc [|? ?]]; try discriminate. cbn [punct_okb] in Hp.
+      apply andb_true_iff in Hp as [_ Hp]. apply negb_true_iff in Hp. cbn [memb]. now rewrite Hp. }
+    assert (H2 : memb 36 (stamp_part (ls_stamp s)) = false).
+    { destruct (stamp_shape _ Hst) as [->|[b [bs [-> [Hb Hbs]]]]]; [reflexivity|].
+      destruct (stamp_chars b bs Hb Hbs) as [_ Hm]. cbn [stamp_part app]. cbn [memb]. cbn [app] in Hm. exact Hm. }
+    assert (H3 : memb 36 (truth_part (ls_truth s)) = false).
+    { destruct (ls_truth s) as [|n ns]; [reflexivity|]. cbn [truth_part]. unfold truth_text, nums_text.
+      cbn [forallb] in Htr. apply andb_true_iff in Htr as [Hn Hns].
+      destruct (num_ok_shape n Hn) as [_ [_ [_ [_ [_ [_ Hm]]]]]].
+      cbn [memb]. rewrite !memb_app, Hm. cbn [memb orb].
+      assert (Hc : memb 36 (concat (map (fun m => 59 :: m) ns)) = false).
+      { clear -Hns Hok. induction ns as [|m ns IH]; [reflexivity|]. cbn [forallb] in Hns. apply andb_true_iff in Hns as [Hm Hns].
+        destruct (num_ok_shape m Hm) as [_ [_ [_ [_ [_ [_ Hm36]]]]]].
+        cbn [map concat]. rewrite memb_app. cbn [memb]. now rewrite Hm36, (IH Hns). }
+      now rewrite Hc. }
+    now rewrite H1, H2, H3.
+  Qed.
+
+  Lemma ev_sentence s :
+    lsentence_wf ucls X0 s = true ->
+    exists t, E (PRef (ss "sentence")) NonAtomic (lfmt_sentence SL s)
+                (POk [] [Node (ss "sentence") (lfmt_sentence SL s)
+                           (t :: Node (ss "punctuation") (ls_punct s) [] :: tail_kids (ls_stamp s) (ls_truth s))]) /\
+              conv t = Some (ls_term s).
+  Proof.
+    unfold lsentence_wf. intros H.
+    apply andb_true_iff in H as [H Htr]. apply andb_true_iff in H as [H Hst]. apply andb_true_iff in H as [Hw Hp].
+    pose proof (puncts_ok _ Hp) as Hpo.
+    destruct (ls_punct s) as [|pc [|? ?]] eqn:Hpe; try discriminate. cbn [punct_okb] in Hpo.
+    apply andb_true_iff in Hpo as [Hpo _]. apply andb_true_iff in Hpo as [Hcl Hps].
+    set (R := stamp_part (ls_stamp s) ++ truth_part (ls_truth s)).
+    assert (Htxt : lfmt_sentence SL s = F (ls_term s) ++ pc :: R).
+    { rewrite lfmt_sentence_eq. unfold sent_tail. now rewrite Hpe. }
+    destruct (conf_all _ Hw (pc :: R) (follow_closer pc R Hcl)) as [k' [t [He [Hd Hv]]]].
+    rewrite (dropws_closer pc R Hcl) in Hd.
+    exists t. split; [|exact Hv].
+    assert (Hb : E (PSeq (PRef (ss "term")) (PSeq (PRef (ss "punctuation"))
+                     (PSeq (POpt (PRef (ss "stamp"))) (POpt (PRef (ss "truth")))))) NonAtomic (F (ls_term s) ++ pc :: R)
+                   (POk [] (t :: Node (ss "punctuation") [pc] [] :: tail_kids (ls_stamp s) (ls_truth s)))).
+    { eapply ev_kids.
+      - eapply ev_seq_ok; [exact He | |].
+        { pose proof (ev_skip_na k') as Hs. rewrite Hd in Hs. exact Hs. }
+        eapply ev_seq_ok; [exact (ev_punctuation pc R Hps) | apply ev_skip_na |].
+        exact (ev_sentence_tail _ _ Hst Htr).
+      - reflexivity. }
+    rewrite Htxt.
+    pose proof (ev_ref ucls G n0 (ss "sentence") _ NonAtomic _ _ eq_refl Hb) as H.
+    cbn [pr_mod rule emits] in H.
+    rewrite <- (app_nil_r (F (ls_term s) ++ pc :: R)) in H at 2. rewrite consumed_app in H. exact H.
+  Qed.
+
+  (* conversion of a sentence node *)
+  Lemma numbers_of_nodes l : numbers_of (map tbt_node l) = Some l.
+  Proof.
+    unfold numbers_of.
+    assert (H : forallb (fun k => is_rule k "truth_budget_term") (map tbt_node l) = true).
+    { induction l as [|m l IH]; [reflexivity|]. cbn [map forallb]. rewrite IH. reflexivity. }
+    rewrite H. f_equal. rewrite map_map. cbn [tbt_node tree_text]. apply map_id.
+  Qed.
+
+  Lemma conv_sentence txt t x pc st tr :
+    conv t = Some x -> strip_ws ucls st = st ->
+    lsentence_of_tree ucls (Node (ss "sentence") txt (t :: Node (ss "punctuation") pc [] :: tail_kids st tr)) =
+    Some {| ls_term := x; ls_punct := pc; ls_stamp := st; ls_truth := tr |}.
+  Proof.
+    intros Hv Hs. unfold lsentence_of_tree. rewrite !str_eqb_refl. cbn [andb]. rewrite Hv.
+    destruct st as [|c st]; destruct tr as [|n ns]; cbn [tail_kids app].
+    - reflexivity.
+    - change (str_eqb (ss "truth") (ss "stamp")) with false. cbn iota. rewrite str_eqb_refl.
+      rewrite (numbers_of_nodes (n :: ns)). reflexivity.
+    - rewrite str_eqb_refl, Hs. reflexivity.
+    - rewrite !str_eqb_refl. cbn [andb]. rewrite (numbers_of_nodes (n :: ns)), Hs. reflexivity.
+  Qed.
+
+  Lemma stamp_strip_ok st : stamp_ok X0 st = true -> strip_ws ucls st = st.
+  Proof.
+    intros H. destruct (stamp_shape st H) as [->|[b [bs [-> [Hb Hbs]]]]]; [reflexivity|].
+    now destruct (stamp_chars b bs Hb Hbs).
+  Qed.
+
+  (* ---- the printed task ---- *)
+  Lemma lfmt_task_eq k :
+    lsentence_wf ucls X0 (lt_sentence k) = true ->
+    lfmt_task SL k = budget_text (lt_budget k) ++ 32 :: lfmt_sentence SL (lt_sentence k).
+  Proof.
+    intros Hw. unfold lfmt_task.
+    assert (Hb : lfmt_budget SL (lt_budget k) = budget_text (lt_budget k)).
+    { unfold lfmt_budget, budget_text. cbn [ll_bb0 ll_bb1 ll_bsep SL]. destruct (lt_budget k) as [|n ns].
+      - reflexivity.
+      - rewrite join_with_nums. reflexivity. }
+    rewrite Hb. cbn [ll_sp_items SL].
+    destruct (lfmt_sentence SL (lt_sentence k)) as [|c r] eqn:Hs; [|reflexivity].
+    exfalso. rewrite lfmt_sentence_eq in Hs. unfold sent_tail in Hs.
+    unfold lsentence_wf in Hw. apply andb_true_iff in Hw as [Hw _]. apply andb_true_iff in Hw as [Hw _].
+    apply andb_true_iff in Hw as [_ Hp]. apply puncts_ok in Hp.
+    destruct (ls_punct (lt_sentence k)) as [|pc ?]; [discriminate|].
+    apply app_eq_nil in Hs as [_ Hs]. discriminate.
+  Qed.
+
+  Lemma ev_task k :
+    ltask_wf ucls X0 k = true ->
+    exists sn, E (PRef (ss "task")) NonAtomic (lfmt_task SL k)
+                 (POk [] [Node (ss "task") (lfmt_task SL k)
+                            [Node (ss "budget") (budget_text (lt_budget k))
+                               [Node (ss "budget_content") (budget_inner (lt_budget k)) (map tbt_node (lt_budget k))];
+                             sn]]) /\
+               lsentence_of_tree ucls sn = Some (lt_sentence k).
+  Proof.
+    unfold ltask_wf. intros H. apply andb_true_iff in H as [Hb Hw].
+    destruct (ev_sentence _ Hw) as [t [Hs Hv]].
+    pose proof Hw as Hw'. unfold lsentence_wf in Hw'.
+    apply andb_true_iff in Hw' as [Hw' Htr]. apply andb_true_iff in Hw' as [Hw' Hst]. apply andb_true_iff in Hw' as [Hwt Hp].
+    set (sn := Node (ss "sentence") (lfmt_sentence SL (lt_sentence k))
+                 (t :: Node (ss "punctuation") (ls_punct (lt_sentence k)) []
+                    :: tail_kids (ls_stamp (lt_sentence k)) (ls_truth (lt_sentence k)))) in *.
+    exists sn. split.
+    - rewrite (lfmt_task_eq k Hw).
+      assert (Hbody : E (PSeq (PRef (ss "budget")) (PRef (ss "sentence"))) NonAtomic
+                        (budget_text (lt_budget k) ++ 32 :: lfmt_sentence SL (lt_sentence k))
+                        (POk [] ([Node (ss "budget") (budget_text (lt_budget k))
+                                    [Node (ss "budget_content") (budget_inner (lt_budget k)) (map tbt_node (lt_budget k))]]
+                                 ++ [] ++ [sn]))).
+      { eapply ev_seq_ok; [exact (ev_budget _ _ Hb) | | exact Hs].
+        pose proof (ev_skip_na (32 :: lfmt_sentence SL (lt_sentence k))) as Hk. rewrite (dropws_ws 32) in Hk by ascii.
+        rewrite lfmt_sentence_eq in Hk at 2. rewrite (wf_head_nows _ _ Hwt) in Hk. rewrite <- lfmt_sentence_eq in Hk. exact Hk. }
+      pose proof (ev_ref ucls G n0 (ss "task") _ NonAtomic _ _ eq_refl Hbody) as H.
+      cbn [pr_mod rule emits app] in H.
+      rewrite <- (app_nil_r (budget_text (lt_budget k) ++ 32 :: lfmt_sentence SL (lt_sentence k))) in H at 2.
+      rewrite consumed_app in H. exact H.
+    - unfold sn. destruct (lt_sentence k) as [x pc st tr]. cbn [ls_term ls_punct ls_stamp ls_truth] in *.
+      exact (conv_sentence _ t x pc st tr Hv (stamp_strip_ok st Hst)).
+  Qed.
+
+  Lemma conv_task txt bt ct b sn s :
+    lsentence_of_tree ucls sn = Some s ->
+    ltask_of_tree ucls (Node (ss "task") txt [Node (ss "budget") bt [Node (ss "budget_content") ct (map tbt_node b)]; sn]) =
+    Some {| lt_budget := b; lt_sentence := s |}.
+  Proof.
+    intros Hs. unfold ltask_of_tree. rewrite !str_eqb_refl. cbn [andb]. now rewrite numbers_of_nodes, Hs.
+  Qed.
+
+  (* ---- the entry rule for the three kinds, and the whole-input wrapper ---- *)
+  Lemma narsese_sentence s :
+    lsentence_wf ucls X0 s = true ->
+    exists sn, E (PRef (ss "narsese")) NonAtomic (lfmt_sentence SL s)
+                 (POk [] [Node (ss "narsese") (lfmt_sentence SL s) [sn]]) /\
+               tree_rule sn = ss "sentence" /\ lsentence_of_tree ucls sn = Some s.
+  Proof.
+    intros Hw. destruct (ev_sentence s Hw) as [t [He Hv]].
+    pose proof Hw as Hw'. unfold lsentence_wf in Hw'.
+    apply andb_true_iff in Hw' as [Hw' Htr]. apply andb_true_iff in Hw' as [Hw' Hst]. apply andb_true_iff in Hw' as [Hwt Hp].
+    eexists. split; [|split].
+    - assert (Ht : E (PRef (ss "task")) NonAtomic (lfmt_sentence SL s) PFail).
+      { apply ev_task_fail. rewrite lfmt_sentence_eq.
+        exact (term_text_one_dollar _ _ Hwt (sent_tail_no36 s Hp Hst Htr)). }
+      pose proof (ev_ref ucls G n0 (ss "narsese") _ NonAtomic _ _ eq_refl
+                    (ev_choice_r _ _ _ _ _ _ _ _ Ht (ev_choice_l _ _ _ _ _ _ _ _ _ He))) as H.
+      cbn [pr_mod rule emits] in H.
+      rewrite <- (app_nil_r (lfmt_sentence SL s)) in H at 2. rewrite consumed_app in H. exact H.
+    - reflexivity.
+    - destruct s as [x pc st tr]. cbn [ls_term ls_punct ls_stamp ls_truth] in *.
+      exact (conv_sentence _ t x pc st tr Hv (stamp_strip_ok st Hst)).
+  Qed.
+
+  Lemma narsese_task k :
+    ltask_wf ucls X0 k = true ->
+    exists tn, E (PRef (ss "narsese")) NonAtomic (lfmt_task SL k) (POk [] [Node (ss "narsese") (lfmt_task SL k) [tn]]) /\
+               tree_rule tn = ss "task" /\ ltask_of_tree ucls tn = Some k.
+  Proof.
+    intros Hw. destruct (ev_task k Hw) as [sn [He Hv]].
+    eexists. split; [|split].
+    - pose proof (ev_ref ucls G n0 (ss "narsese") _ NonAtomic _ _ eq_refl (ev_choice_l _ _ _ _ _ _ _ _ _ He)) as H.
+      cbn [pr_mod rule emits] in H.
+      rewrite <- (app_nil_r (lfmt_task SL k)) in H at 2. rewrite consumed_app in H. exact H.
+    - reflexivity.
+    - destruct k as [b s]. cbn [lt_budget lt_sentence] in *. exact (conv_task _ _ _ b sn s Hv).
+  Qed.
+
+  Lemma top_wrap s k' node :
+    n0 = length s -> dropws s = s -> E (PRef (ss "narsese")) NonAtomic s (POk k' [node]) -> dropws k' = [] ->
+    E (PSeq PSoi (PSeq (PRef (ss "narsese")) PEoi)) NonAtomic s (POk [] [node]).
+  Proof.
+    intros Hn Hd He Hk. eapply ev_kids.
+    - eapply ev_seq_ok.
+      + pose proof (ev_soi ucls G n0 NonAtomic s) as H. rewrite Hn, Nat.eqb_refl in H. rewrite Hn. exact H.
+      + pose proof (ev_skip_na s) as H. rewrite Hd in H. exact H.
+      + eapply ev_seq_ok; [exact He | | apply (ev_eoi ucls G n0 NonAtomic [])].
+        pose proof (ev_skip_na k') as H. rewrite Hk in H. exact H.
+    - reflexivity.
+  Qed.
+
+  Lemma sentence_head_nows s : lsentence_wf ucls X0 s = true -> dropws (lfmt_sentence SL s) = lfmt_sentence SL s.
+  Proof.
+    intros Hw. unfold lsentence_wf in Hw. apply andb_true_iff in Hw as [Hw _]. apply andb_true_iff in Hw as [Hw _].
+    apply andb_true_iff in Hw as [Hwt _]. rewrite lfmt_sentence_eq. now apply wf_head_nows.
+  Qed.
 End Conf.
 
 (* ------------------------------------------------------------------------------------------ *)
@@ -1761,4 +2110,51 @@ Proof.
   unfold lnarsese_of_tree, is_rule. rewrite Hr.
   change (str_eqb (ss "term") (ss "task")) with false. change (str_eqb (ss "term") (ss "sentence")) with false.
   change (str_eqb (ss "term") (ss "term")) with true. cbn iota. rewrite Hv. reflexivity.
+Qed.
+
+(* the same for sentences and tasks *)
+Theorem lex_sentence_conforms ucls s :
+  ucls_ok ucls -> lsentence_wf ucls opennars_lexicon s = true ->
+  exists n, forall m, (n <= m)%nat ->
+    readme_parse_with ucls expected_grammar m (lfmt_sentence SL s) = RValue (NSentence s).
+Proof.
+  intros Hok Hw. set (txt := lfmt_sentence SL s).
+  destruct (narsese_sentence ucls Hok (length txt) s Hw) as [sn [He [Hr Hv]]]. fold txt in He.
+  destruct (top_wrap ucls (length txt) txt [] _ eq_refl (sentence_head_nows ucls Hok s Hw) He eq_refl) as [n Hn].
+  exists n. intros m Hm. unfold readme_parse_with, parse_with. fold txt. rewrite (Hn m Hm).
+  change (str_eqb (ss "narsese") (ss "narsese")) with true. cbn iota.
+  unfold lnarsese_of_tree, is_rule. rewrite Hr.
+  change (str_eqb (ss "sentence") (ss "task")) with false. change (str_eqb (ss "sentence") (ss "sentence")) with true.
+  cbn iota. rewrite Hv. reflexivity.
+Qed.
+
+Theorem lex_task_conforms ucls k :
+  ucls_ok ucls -> ltask_wf ucls opennars_lexicon k = true ->
+  exists n, forall m, (n <= m)%nat ->
+    readme_parse_with ucls expected_grammar m (lfmt_task SL k) = RValue (NTask k).
+Proof.
+  intros Hok Hw. set (txt := lfmt_task SL k).
+  destruct (narsese_task ucls Hok (length txt) k Hw) as [tn [He [Hr Hv]]]. fold txt in He.
+  assert (Hd : dropws ucls txt = txt).
+  { unfold txt. pose proof Hw as Hw'. unfold ltask_wf in Hw'. apply andb_true_iff in Hw' as [_ Hs].
+    rewrite (lfmt_task_eq ucls Hok k Hs). unfold budget_text. cbn [app]. apply dropws_nows.
+    unfold isws. rewrite (uo_ascii _ Hok) by (vm_compute; reflexivity). vm_compute. reflexivity. }
+  destruct (top_wrap ucls (length txt) txt [] _ eq_refl Hd He eq_refl) as [n Hn].
+  exists n. intros m Hm. unfold readme_parse_with, parse_with. fold txt. rewrite (Hn m Hm).
+  change (str_eqb (ss "narsese") (ss "narsese")) with true. cbn iota.
+  unfold lnarsese_of_tree, is_rule. rewrite Hr.
+  change (str_eqb (ss "task") (ss "task")) with true. cbn iota. rewrite Hv. reflexivity.
+Qed.
+
+(* every well-formed lexical value: the text the lexical ASCII formatter prints is a sentence of the
+   grammar, of the same kind, deriving the value itself *)
+Theorem lex_narsese_conforms ucls v :
+  ucls_ok ucls -> lnarsese_wf ucls opennars_lexicon v = true ->
+  exists n, forall m, (n <= m)%nat ->
+    readme_parse_with ucls expected_grammar m (lfmt_narsese SL v) = RValue v.
+Proof.
+  intros Hok Hw. destruct v as [t|s|k]; cbn [lnarsese_wf lfmt_narsese] in *.
+  - now apply lex_term_conforms.
+  - now apply lex_sentence_conforms.
+  - now apply lex_task_conforms.
 Qed.
